@@ -40,6 +40,8 @@ def conditions(path):
 def _env():
     env = dict(os.environ, TQDM_DISABLE="1", PYTHONHASHSEED="0", NAUNET_VERIF="1", PYTHONDONTWRITEBYTECODE="1")
     env["PYTHONPATH"] = os.path.dirname(HERE) + os.pathsep + os.path.dirname(os.path.dirname(HERE))
+    if os.environ.get("VERIF_REPO"):  # seeded-change trials only (see vf/paths.py)
+        env["PYTHONPATH"] = os.environ["VERIF_REPO"] + os.pathsep + env["PYTHONPATH"]
     return env
 
 
